@@ -30,6 +30,8 @@
 //!      R lists the roots that count: meta table, meta index, and every physical catalog row that owns a tree (see
 //!      `Observer::step`); a root is followed by `c` if the row's creator was rolled back and by `d` if its deleter was.
 //!      X=<n> (only when n > 0): number of dividers that carry an overflow pointer.
+//!      N=<root,…>: the roots of the trees with numeric keys; K<id>:<k1>,<k2>,… the keys of all cells of page <id> of such a tree
+//!      (`K<id>:!` = the page has no numeric keys any more): the judge also runs C10's `checkTree` on these trees.
 //!    The judge runs `checkOwnership` on every step and the reuse-before-growth rule on consecutive steps.
 use super::{Case, Engine, Tier};
 use crate::rng::Rng;
@@ -459,9 +461,39 @@ fn page_tokens(d: &FileDump) -> BTreeMap<u64, String> {
     out
 }
 
+/// `K<id>:<k1>,<k2>,…`: the keys of all cells of B-tree page `id` in slot order, for pages whose keys are numeric (row ids of
+/// tables and of the meta table: BigUInt k -> k; BIGINT index keys: k -> k + 2^63). A page with an undecodable key gets none.
+fn key_tokens(d: &FileDump) -> BTreeMap<u64, String> {
+    use axmosdb::verif::btree::VKey;
+    let mut out = BTreeMap::new();
+    for p in &d.pages {
+        if let PageBody::Btree(b) = &p.body {
+            if !b.well_formed || b.self_id != p.id {
+                continue;
+            }
+            let ks: Option<Vec<String>> = b
+                .cells
+                .iter()
+                .map(|c| match &c.key {
+                    Some(VKey::U64(k)) => Some(k.to_string()),
+                    Some(VKey::I64(k)) => Some(((*k as i128) + (1i128 << 63)).to_string()),
+                    _ => None,
+                })
+                .collect();
+            if let Some(ks) = ks {
+                out.insert(p.id, format!("K{}:{}", p.id, ks.join(",")));
+            }
+        }
+    }
+    out
+}
+
 struct Observer {
     prev: BTreeMap<u64, String>,
+    prev_keys: BTreeMap<u64, String>,
     cache: Option<DumpCache>,
+    /// index name -> indexed column (from the CREATE INDEX statements of the case)
+    index_cols: BTreeMap<String, String>,
 }
 
 impl Observer {
@@ -484,7 +516,19 @@ impl Observer {
                 Some(_) => {}
             }
         }
-        let rk: Vec<(u64, KeyKind)> = counted.iter().map(|r| (r.0, KeyKind::U64)).collect();
+        // key kind per tree: tables and the meta table are keyed by a BigUInt row id, the meta index by name, an index by its column
+        let kind_of = |root: u64| -> KeyKind {
+            match roots.iter().find(|r| r.root == root) {
+                Some(r) if r.name == "meta_index" => KeyKind::Text,
+                Some(r) if r.is_index => match self.index_cols.get(&r.name).map(|s| s.as_str()) {
+                    Some("k") | Some("id") => KeyKind::I64,
+                    _ => KeyKind::Text,
+                },
+                _ => KeyKind::U64,
+            }
+        };
+        let rk: Vec<(u64, KeyKind)> = counted.iter().map(|r| (r.0, kind_of(r.0))).collect();
+        let numeric: Vec<u64> = rk.iter().filter(|r| r.1 != KeyKind::Text).map(|r| r.0).collect();
         let mut cache = self.cache.take();
         let pager = db.pager().clone();
         let d = match guard(|| Ok(dump_file_cached(&pager, &rk, &mut cache))) {
@@ -512,12 +556,29 @@ impl Observer {
         if ndiv > 0 {
             s.push_str(&format!(" X={}", ndiv));
         }
+        if !numeric.is_empty() {
+            s.push_str(&format!(" N={}", numeric.iter().map(|x| x.to_string()).collect::<Vec<_>>().join(",")));
+        }
         for (id, tok) in &toks {
             if self.prev.get(id) != Some(tok) {
                 s.push(' ');
                 s.push_str(tok);
             }
         }
+        let ktoks = key_tokens(&d);
+        for (id, tok) in &ktoks {
+            if self.prev_keys.get(id) != Some(tok) {
+                s.push(' ');
+                s.push_str(tok);
+            }
+        }
+        // a page that lost its key token (no longer a B-tree page with numeric keys)
+        for id in self.prev_keys.keys() {
+            if !ktoks.contains_key(id) {
+                s.push_str(&format!(" K{}:!", id));
+            }
+        }
+        self.prev_keys = ktoks;
         // pages that disappeared cannot happen (total_pages never shrinks); keep the table anyway
         self.prev = toks;
         s
@@ -545,7 +606,12 @@ fn exec_sql(line: &str) -> String {
         Err(_) => return "create-failed".into(),
     };
     let mut sessions: BTreeMap<u32, axmosdb::tcp::session::Session> = BTreeMap::new();
-    let mut obs = Observer { prev: BTreeMap::new(), cache: None };
+    let mut obs = Observer { prev: BTreeMap::new(), prev_keys: BTreeMap::new(), cache: None, index_cols: BTreeMap::new() };
+    for op in &ops {
+        if let QOp::Auto(Stmt::CreateIndex(i, _, c)) | QOp::SStmt(_, Stmt::CreateIndex(i, _, c)) = op {
+            obs.index_cols.insert(i.clone(), c.clone());
+        }
+    }
     let mut parts = Vec::new();
     install_worker_hook();
     let _ = take_worker_panic();
